@@ -103,6 +103,30 @@ def q_repr(c, A, ctx):
     return [repr(c), c.titl, c.name, [str(x) for x in c.site_labels], c.nsites]
 
 
+def q_touch_mols(c, A, ctx):
+    # read-only use of the objects a query handed out: derived properties of
+    # every returned molecule (they may be cached inside the molecule)
+    out = []
+    for m in c.unit_cell_molecules():
+        out.append([m.molecular_formula, m.center_of_mass, m.centroid, len(m), repr(m),
+                    float(np.sum(m.distance_matrix)), m.positions.mean(axis=0)])
+    return out
+
+
+def q_accessors(c, A, ctx):
+    pts = np.array([[0.1, 0.2, 0.3], [1.5, -0.25, 0.75]])
+    return {
+        "site_positions": c.site_positions, "site_atoms": c.site_atoms, "nsites": c.nsites,
+        "site_labels": [str(x) for x in c.site_labels],
+        "symops": [int(s.integer_code) for s in c.symmetry_operations],
+        "symop_strings": [str(s) for s in c.symmetry_operations],
+        "cart": c.to_cartesian(pts), "frac": c.to_fractional(pts),
+        "sg": [c.sg.symbol, c.sg.full_symbol, c.sg.crystal_system, c.sg.lattice_type, int(c.sg.latt), len(c.sg)],
+        "uc": [c.uc.volume(), list(map(float, c.uc.parameters)), c.uc.cell_type],
+        "formula": c.asym.formula, "name": [c.name, c.id, c.titl],
+    }
+
+
 def q_cif(c, A, ctx):
     # exported text is compared through what it parses back to (a loaded
     # crystal legitimately carries extra CIF items a fresh one does not)
@@ -262,7 +286,7 @@ KW_QUERIES = {
     "sym_mols_kw": (q_sym_mols_kw, "P"),
 }
 # queries that may be asked of a keyword crystal (they never build the bond graph with default arguments)
-KW_SAFE = ["uc_atoms", "slab", "air", "asur", "density", "res", "cartsym", "repr", "cif", "cif_data",
+KW_SAFE = ["uc_atoms", "slab", "air", "asur", "density", "res", "cartsym", "repr", "accessors", "cif", "cif_data",
            "poscar", "sl_cif", "sl_res", "sl_poscar", "sl_contcar"]  # fmt: skip
 
 
@@ -289,6 +313,8 @@ QUERIES = {
     "res": (q_res, "N"),
     "cartsym": (q_cartsym, "N"),
     "repr": (q_repr, "N"),
+    "accessors": (q_accessors, "N"),
+    "touch_mols": (q_touch_mols, "C"),
     "cif": (q_cif, "X"),
     "cif_data": (q_cif_data, "X"),
     "poscar": (q_poscar, "X"),
